@@ -445,7 +445,11 @@ PARSE_RULE = ("inputs = bases x next byte x continuation, where bases = (BFS wit
               "whitespace runs 0..17 x byte x padding, string runs 0..40 and around the powers of two x (every byte value, escapes, backslash "
               "runs, multi-byte and truncated runes) x tails, TLC random walks (-simulate), corpus files, random documents with byte "
               "mutations; every input under nil / fresh / reused-and-grown / after-failure / handler-grown buffers, and in the caller's own "
-              "array refilled with the input after a same-length document went through the same Buffer; "
+              "array refilled with the input after a same-length document went through the same Buffer (in the same and in a different function), "
+              "and in seven layouts of the caller's slice (capacity = length; spare capacity holding a digit, a quote, either closing "
+              "bracket, the last letter of a literal, at seven start offsets); every string of up to 4 bytes over 01-+.e,]}[ space quote "
+              "and every 5-byte string over 09-.eE,; 24 lenient sequences (byte order marks, Unicode spaces, comments, VT/FF/NUL) at "
+              "every whitespace position; "
               "distinct = distinct input bytes; non-trivial = longer than one byte")
 
 CHECKS = {
@@ -514,10 +518,12 @@ CHECKS.update({
                     "followed by 17 (thorough: all 256) next bytes; 1..24-digit 1/9/10^n ladders; a sign followed by every byte value; "
                     "leading whitespace 0..24 x digit runs 1..24; digit runs with one position replaced; special forms; random digit "
                     "strings; each through 6 readers and 6 Decode forms; distinct = distinct input; non-trivial = longer than one byte",
-            "technique": "TLA+ digit-sequence spec of integer tokens and ranges (R1 exhaustive on scaled-down types) + TLC validation of recorded reads (R3)",
+            "technique": "TLA+ digit-sequence spec of integer tokens and ranges + implementation-shaped TLA+ model of the readers' two loops (R1 exhaustive on scaled-down words, negative configuration) + TLC validation of recorded reads (R3)",
             "level_text": "IntRead is defined over digit sequences in TLA+ and model-checked exhaustively against integer arithmetic on "
-                          "8-bit types; every recorded call of the twelve integer entry points is recomputed by TLC (success, exact "
-                          "value as digits, sign, end offset).",
+                          "8-bit types; the implementation-shaped model IntsImpl (unchecked loop, checked loop with cutoff and wrap-around "
+                          "tests, sign handling, narrow readers) is model-checked to compute IntRead on 8- and 16-bit words; every recorded "
+                          "call of the twelve integer entry points is recomputed by TLC (success, exact value as digits, sign, end offset) "
+                          "and compared with IntsImpl (conformance notes, error offsets included).",
             "level_note": MC_NOTE + "; the harness prints returned integers with strconv (trusted printing)"},
     "C06": {"family": "values", "level": "model_checking",
             "rule": "string inputs: (top-level string states of the TLA+ machine x all 256 bytes x stop/completion), \\u sweep over the 65536 "
